@@ -149,7 +149,7 @@ def rd : Nat → Nat → St → Bytes → R
   | 0, _, st, out => ⟨st, out, true⟩                       -- ErrExceedDepthLimit
   | f+1, t, st, out =>
     if t = 2 then match rByte st with | (b, st', _) => ⟨st', out ++ [if b = 1 then 1 else 0], false⟩
-    else if t = 3 then match rByte st with | (b, st', _) => ⟨st', out ++ [b], false⟩
+    else if t = 3 then match rByte st with | (b, st', _) => ⟨st', out ++ be 1 b, false⟩
     else if t = 4 then match rFix 8 st with | (v, st', _) => ⟨st', out ++ be 8 v, false⟩
     else if t = 6 then match rFix 2 st with | (v, st', _) => ⟨st', out ++ be 2 v, false⟩
     else if t = 8 then match rFix 4 st with | (v, st', _) => ⟨st', out ++ be 4 v, false⟩
